@@ -19,4 +19,5 @@ INVARIANT Inv_MinExact
 INVARIANT Inv_RetFalse
 INVARIANT Inv_ASeedsSound
 INVARIANT Inv_Seeds
+PROPERTY CacheDiscardStep
 CHECK_DEADLOCK FALSE
